@@ -137,6 +137,10 @@ class Gen16:
             if n != 1 or depth > 0:
                 self.nontrivial = True
             body = self.block(depth + 1, env_names + ([var] if var else []), budget)
+            if var and r.random() < 0.3:
+                # the body's last element changes the loop variable itself: the next pass starts from start + k * step all the same
+                body = body + [("raw", '<var %s="{{$%s + %d}}"/>' % (var, var, r.choice([10, -3, 1])))]
+                self.feats.add("loop.body-writes-loop-var")
             return ("count", n, var, start, step, body)
         self.counters += 1
         c = "n%d" % self.counters
